@@ -5,6 +5,7 @@ import (
 	"io"
 	"log"
 	"os"
+	"strings"
 )
 
 type c02node struct {
@@ -213,4 +214,13 @@ func C02PeekChecked(r *bufio.Reader) bool {
 		return false
 	}
 	return magic[0] == 0x1f && magic[1] == 0x8b
+}
+
+// C13FoldedKey: positive control of NAME-EXACT (a taxon label folded before it is used as a key).
+func C13FoldedKey(labels map[string]bool, name string) bool {
+	switch strings.ToUpper(name) {
+	case "BEGIN", "END":
+		return false
+	}
+	return labels[strings.ToLower(name)]
 }
